@@ -99,7 +99,7 @@ def graphs(tier):
 
 
 def shards(tier):
-    return [("G", i) for i in range(NSHARDS)] + [("H", 0), ("H", 1), ("H", 2), ("H", 3)]
+    return [("G", i) for i in range(NSHARDS)] + [("H", 0), ("H", 1), ("H", 2), ("H", 3), ("F", 0)]
 
 
 ERRS = None
@@ -371,10 +371,49 @@ def run_histories(griffe, tier, fileset=0):
     return acc.result()
 
 
+def run_fileless(griffe, tier):
+    """The same error discipline for trees that did not come from files: a module visited from a string (filepath None), and the tree rebuilt from its JSON.
+    Every single statement of the menu, and every ordered pair; every alias is dereferenced (I2/I3)."""
+    acc = Acc()
+    stmts = [st for st in menu(["x"]) if not st.startswith("from .")]  # (a relative import cannot be interpreted without knowing the file: `visit` refuses it)
+
+    class _L:  # what _touch_all needs of a loader
+        pass
+
+    for combo in [(s,) for s in stmts] + [(a, b) for a in stmts for b in stmts if a != b]:
+        code = "\n".join(combo) + "\n"
+        for how in ("visited-from-string", "rebuilt-from-json"):
+            case = {"fileless": how, "statements": list(combo)}
+            viols = []
+            try:
+                with sandbox.time_limit(10):
+                    coll = griffe.ModulesCollection()
+                    mod = griffe.visit("pkg", filepath=None, code=code, modules_collection=coll)
+                    if how == "rebuilt-from-json":
+                        mod = griffe.Module.from_json(mod.as_json())
+                        mod._modules_collection = coll
+                    coll.set_member("pkg", mod)
+                    fake = _L()
+                    fake.modules_collection = coll
+                    _touch_all(griffe, fake, viols, None)
+            except sandbox.CaseTimeout:
+                viols.append(("hang/10s", "no result within 10 s", None))
+            except Exception as e:  # noqa: BLE001
+                viols.append((f"raise/{type(e).__name__}@{_frame(e)}/fileless", f"raised {e!r}", None))
+            acc.case(case, outcome="fileless:" + ("ok" if not viols else "viol"), nontrivial=any("import" in st for st in combo))
+            acc.states += 1
+            acc.transitions += 1
+            for k, summary, _w in viols:
+                acc.violation(f"{k}/fileless-module/{how}", summary, case, None, size=len(combo))
+    return acc.result()
+
+
 def run_shard(shard, tier):
     boot.boot()
     import griffe
 
+    if shard[0] == "F":
+        return run_fileless(griffe, tier)
     if shard[0] == "G":
         return run_graphs(griffe, shard[1], tier)
     return run_histories(griffe, tier, shard[1])
@@ -384,6 +423,9 @@ def replay(case):
     boot.boot()
     import griffe
 
+    if "fileless" in case:
+        res = run_fileless(griffe, "quick")
+        return [(k, v["summary"], v["detail"]) for k, v in res["violations"].items()]
     if "graph" in case:
         g = tuple(tuple(s) for s in case["graph"])
         return [(f"{k}/{_gkey(g)}", s, None) for k, s in check_graph(griffe, g)]
